@@ -103,7 +103,7 @@ def as_bool(t):
 
 class Den:
     def __init__(self, arrays: ArrayModel, bindings, shape_of, *,
-                 size_param=None):
+                 size_param=None, cast_identity=False):
         """
         :arg bindings: name -> array object
         :arg shape_of: callable(array object) -> tuple of shape components
@@ -115,6 +115,8 @@ class Den:
         self.shape_of = shape_of
         self.size_param = size_param or (lambda a: None)
         self.accesses: list[Access] = []
+        self.cast_identity = cast_identity
+        self.inline_index_lambdas = True
         self.guards: list = []
         # reduction variables whose bounds are read from arrays (CSR rows)
         self.data_dependent_vars: list = []
@@ -196,14 +198,24 @@ class Den:
             if isinstance(e, np.bool_):
                 return z3.BoolVal(bool(e))
             if isinstance(e, (float, complex, np.number)):
-                if e == int(e.real if isinstance(e, complex) else e) and \
-                        (not isinstance(e, (complex, np.complexfloating))
-                         or e.imag == 0):
-                    # integral literal of float type: keep kind distinct
-                    return uf(f"lit_{type(e).__name__}", 1)(
-                        z3.IntVal(int(e.real if isinstance(
-                            e, (complex, np.complexfloating)) else e)))
-                return z3.Int(f"lit_{type(e).__name__}_{e!r}")
+                re_ = e.real if isinstance(
+                    e, (complex, np.complexfloating)) else e
+                im_ = e.imag if isinstance(
+                    e, (complex, np.complexfloating)) else 0
+                if im_ == 0 and re_ == re_ and abs(re_) != float("inf") \
+                        and re_ == int(re_):
+                    # integral literal of float type: the integer it denotes
+                    # (exact arithmetic)
+                    return z3.IntVal(int(re_))
+                if im_ == 0 and re_ == re_:
+                    # non-integral real literal: an uninterpreted constant,
+                    # sign-canonical so that -(c) and (-c) coincide
+                    if re_ < 0:
+                        return -z3.Int(f"lit_float_{float(-re_)!r}")
+                    return z3.Int(f"lit_float_{float(re_)!r}")
+                if re_ != re_:
+                    return z3.Int("nan_float64")
+                return z3.Int(f"lit_complex_{complex(e)!r}")
         except OutsideSubset:
             raise
         except Exception:  # noqa: BLE001
@@ -213,6 +225,20 @@ class Den:
             raise OutsideSubset(f"den: no meaning for {type(e).__name__}")
         return m(e, env)
 
+    def _nested(self, arr, idx_t):
+        """A binding that is itself an IndexLambda: its own denotation at the
+        subscript (the value of a node is a function of its children)."""
+        from pytato.array import IndexLambda
+        if not self.inline_index_lambdas or not isinstance(arr, IndexLambda):
+            return None
+        saved = self.bindings
+        self.bindings = arr.bindings
+        try:
+            env = {f"_{d}": t for d, t in enumerate(idx_t)}
+            return as_int(self.rec(arr.expr, env))
+        finally:
+            self.bindings = saved
+
     def d_Variable(self, e, env):
         if e.name in env:
             return env[e.name]
@@ -221,6 +247,10 @@ class Den:
             sp = self.size_param(arr)
             if sp is not None:
                 return sp
+            if len(self.shape_of(arr)) == 0:
+                nested = self._nested(arr, ())
+                if nested is not None:
+                    return nested
             if len(self.shape_of(arr)) != 0:
                 raise OutsideSubset(
                     f"den: non-scalar binding {e.name} used without subscript")
@@ -246,6 +276,12 @@ class Den:
             raise EngineFault(
                 f"den: {agg.name} has rank {rank} but is indexed with "
                 f"{len(idx_t)} indices")
+        nested = self._nested(arr, idx_t)
+        if nested is not None:
+            # the access into the intermediate result itself stays subject
+            # to the bounds obligation
+            self.accesses.append(Access(arr, idx_t, self._guard(), agg.name))
+            return nested
         f = self.arrays.fn_for(arr, rank)
         self.accesses.append(Access(arr, idx_t, self._guard(), agg.name))
         if rank == 0:
@@ -371,7 +407,12 @@ class Den:
         return z3.Int(f"nan_{getattr(dt, '__name__', dt)}")
 
     def d_TypeCast(self, e, env):
-        return uf(f"cast_{e.dtype}", 1)(as_int(self.rec(e.inner_expr, env)))
+        inner = as_int(self.rec(e.inner_expr, env))
+        if self.cast_identity:
+            # exact arithmetic: a cast to the (wider) result dtype keeps the
+            # value -- stated assumption of the C01/C19 contracts
+            return inner
+        return uf(f"cast_{e.dtype}", 1)(inner)
 
     def d_Reduce(self, e, env):
         # nested reduction: fresh uninterpreted value, determined by
